@@ -12,6 +12,8 @@ type Emitter struct {
 	R    *common.Run
 	Prop string
 	N    int
+
+	noted bool
 }
 
 // Do executes one case on the real code, records the protocol line with the observed
@@ -30,6 +32,13 @@ func (e *Emitter) Do(cs Case, class string) Result {
 }
 
 func (e *Emitter) do(cs Case, class string) Result {
+	if Aborted() {
+		if !e.noted {
+			e.noted = true
+			e.R.Notes = append(e.R.Notes, "a run of the library did not end although nothing blocked it (reported as a stall): the remaining cases were skipped")
+		}
+		return Result{Outcome: "SKIPPED"}
+	}
 	res := Exec(cs)
 	line := cs.Line(res)
 	e.R.Line(line, res.Obs(cs.Cfg))
